@@ -147,6 +147,13 @@ func (c *Ctx) load(patterns ...string) {
 		c.add("E0.load", "load:"+strings.Join(all, ","), Undecided, "", fmt.Sprintf("%d load/type errors in module packages; nothing can be decided on a tree that does not type-check", nerr))
 	}
 	c.roots = pkgs
+	loadedSyntax = nil
+	bareReturns = map[*ast.ReturnStmt]*ast.ReturnStmt{}
+	for _, p := range c.loaded {
+		if strings.HasPrefix(p.PkgPath, modPath) {
+			loadedSyntax = append(loadedSyntax, p.Syntax...)
+		}
+	}
 	c.count("packages_loaded_from_source", len(pkgs))
 }
 
